@@ -29,6 +29,16 @@ func init() {
 func analysisCheck(cfg *core.Config, oracle, evalCounter, rule string, assumptions []string) int {
 	rep := core.NewReport(cfg)
 	progs := typeProgs(cfg.Seed, cfg.Pick(32, 2500))
+	// programs where a sub-package re-uses local names of the root (an enum, a union member struct)
+	for i := 0; i < cfg.Pick(6, 300); i++ {
+		r := core.Rand(cfg.Seed, "typeprog-same-names", i)
+		opts := synth.RandomTypeOpts(r)
+		opts.SameNameInSub, opts.Unions = true, true
+		if opts.NumSubs == 0 {
+			opts.NumSubs = 1
+		}
+		progs = append(progs, synth.NewTypeProg(cfg.Seed, 6000+i, r, opts))
+	}
 	if oracle == "c12" {
 		// deeper nesting and more recursion for the type graph property
 		n := cfg.Pick(12, 800)
